@@ -1,8 +1,202 @@
-(* C04 proofs about Formats/PlyWrite.v composed with the reader model Formats/PlyRead.v. *)
+(* C04 proofs: the writer model Formats/PlyWrite.v composed with the reader model Formats/PlyRead.v. *)
 From PF Require Import Base.Bytes Base.BytesMore Base.BytesProofs Formats.PlyRead Formats.PlyWrite.
-From Coq Require Import String Ascii.
+From Coq Require Import String Ascii ZifyN ZifyNat ZifyBool.
 Open Scope list_scope.
 Open Scope N_scope.
+Ltac Zify.zify_post_hook ::= Z.div_mod_to_equations.
+
+(* ================= generic helpers ================= *)
+Lemma mapR_ok {A B} (f : A -> result B) (g : A -> B) l :
+  (forall x, In x l -> f x = Ok (g x)) -> mapR f l = Ok (map g l).
+Proof.
+  induction l as [|x l IH]; intros H; [reflexivity|].
+  cbn [mapR map]. rewrite (H x (or_introl eq_refl)). cbn [rbind].
+  rewrite IH by (intros y Hy; apply H; right; exact Hy). reflexivity.
+Qed.
+
+Lemma mapR_ext {A B} (f g : A -> result B) l : (forall x, In x l -> f x = g x) -> mapR f l = mapR g l.
+Proof.
+  induction l as [|x l IH]; intros H; [reflexivity|].
+  cbn [mapR]. rewrite (H x (or_introl eq_refl)). destruct (g x); cbn [rbind]; [|reflexivity].
+  rewrite IH by (intros y Hy; apply H; right; exact Hy). reflexivity.
+Qed.
 
 Lemma enc_word_length e t w : List.length (enc_word e t w) = sty_size t.
 Proof. destruct t, e; reflexivity. Qed.
+
+Lemma word_fits_32 t w : sty_size t = 4%nat -> word_fits t w -> word32 w.
+Proof. unfold word_fits, word32. intros ->. cbn. lia. Qed.
+
+Lemma dec_enc_word e t w : word_fits t w -> dec_word e t (enc_word e t w) = Some w.
+Proof.
+  intros H. unfold word_fits in H.
+  destruct t, e; cbn [sty_size] in H; unfold dec_word, enc_word; cbn [sty_size];
+    try reflexivity;
+    try (rewrite rev_involutive);
+    try (apply de_le16_le16; unfold word16; cbn in H; lia);
+    try (apply de_le32_le32; unfold word32; cbn in H; lia);
+    try (apply de_be32_be32; unfold word32; cbn in H; lia);
+    try (apply de_le64_le64; unfold word64; cbn in H; lia);
+    try (apply de_be64_be64; unfold word64; cbn in H; lia).
+Qed.
+
+Lemma get_word_at e t w (A B : list N) off :
+  List.length A = off -> word_fits t w -> get_word e t off (A ++ enc_word e t w ++ B) = Some w.
+Proof.
+  intros <- Hw. unfold get_word, slice. rewrite skipn_app_length.
+  rewrite take_app_exact by (symmetry; apply enc_word_length). cbn [bind].
+  apply dec_enc_word, Hw.
+Qed.
+
+Lemma nth_error_at {A} (P : list A) x S : nth_error (P ++ x :: S) (List.length P) = Some x.
+Proof. induction P; [reflexivity|exact IHP]. Qed.
+
+Lemma map_nth_seq {A} (l : list A) d : map (fun i => nth i l d) (seq 0 (List.length l)) = l.
+Proof.
+  induction l as [|x l IH]; [reflexivity|].
+  cbn [List.length seq map nth]. f_equal. rewrite <- seq_shift, map_map. exact IH.
+Qed.
+
+(* ================= vertex element ================= *)
+(* flattened types of a group list; offset of the next property after a prefix of types *)
+Definition g_tys (g : rgroup) : list sty := map (fun _ => rg_ty g) (rg_names g).
+Definition tys_of (gs : list rgroup) : list sty := flat_map g_tys gs.
+Definition size_of (ts : list sty) : nat := fold_right (fun t acc => (sty_size t + acc)%nat) O ts.
+Definition off_of (bin : bool) (ts : list sty) : nat := if bin then size_of ts else List.length ts.
+(* offsets of [k] consecutive properties of type [t] starting after the types [pre] *)
+Fixpoint offs_from (bin : bool) (cur : nat) (t : sty) (k : nat) : list nat :=
+  match k with O => [] | S k' => cur :: offs_from bin (advance bin cur t) t k' end.
+(* the readers the PLY reader is expected to build on a group list: one per group, members consecutive *)
+Fixpoint layout (bin : bool) (gs : list rgroup) (cur : nat) : list built :=
+  match gs with
+  | [] => []
+  | g :: r =>
+      let k := List.length (rg_names g) in
+      {| b_attr := rg_attr g; b_names := rg_names g; b_offs := offs_from bin cur (rg_ty g) k; b_ty := rg_ty g;
+         b_v1 := Nat.eqb k 1 |}
+      :: layout bin r (if bin then cur + k * sty_size (rg_ty g) else cur + k)%nat
+  end.
+
+Definition ty_supported (t : sty) : bool := match t with UChar | Float | Double => true | _ => false end.
+(* a value the writer can store in type t, with the stored word fitting the type *)
+Definition good (t : sty) (w : N) : Prop := exists s, bword t w = Ok s /\ word_fits t s.
+Definition sw (t : sty) (w : N) : N := match bword t w with Ok s => s | Err _ => 0 end.   (* stored word *)
+Definition vl (t : sty) (w : N) : N := match val t w with Ok v => v | Err _ => 0 end.     (* value read back *)
+Definition row_good (g : rgroup) (r : list N) : Prop :=
+  List.length r = List.length (rg_names g) /\ Forall (fun w => good (rg_ty g) w /\ exists v, val (rg_ty g) w = Ok v) r.
+Definition group_good (n : nat) (g : rgroup) : Prop :=
+  ty_supported (rg_ty g) = true /\ List.length (rg_rows g) = n /\ Forall (row_good g) (rg_rows g).
+Definition rowi (g : rgroup) (i : nat) : list N := nth i (rg_rows g) [].
+
+Lemma good_sw t w : good t w -> bword t w = Ok (sw t w) /\ word_fits t (sw t w).
+Proof. intros (s & E & F). unfold sw. rewrite E. auto. Qed.
+
+Lemma conv_sw t w : ty_supported t = true -> good t w -> (exists v, val t w = Ok v) -> conv t (sw t w) = Ok (vl t w).
+Proof.
+  intros Ht Hg (v & Ev). unfold vl. rewrite Ev. destruct (good_sw _ _ Hg) as [Eb _]. revert Eb Ev. unfold sw.
+  destruct t; try discriminate; cbn [bword val conv].
+  - destruct (q255 w) as [b|]; cbn [rbind]; [|discriminate]. intros _ E. exact E.
+  - intros _ E. exact E.
+  - intros _ E. exact E.
+Qed.
+
+Lemma rowi_good n g i : group_good n g -> (i < n)%nat -> grow g i = Ok (rowi g i) /\ row_good g (rowi g i).
+Proof.
+  intros (_ & Hl & Hr) Hi. unfold grow, rowi.
+  destruct (nth_error (rg_rows g) i) as [r|] eqn:E; [|apply nth_error_None in E; lia].
+  rewrite (nth_error_nth _ _ _ E). split; [reflexivity|].
+  rewrite Forall_forall in Hr. apply Hr. eapply nth_error_In; eassumption.
+Qed.
+
+(* the words the model writes for vertex i *)
+Definition gwords (g : rgroup) (i : nat) : list (sty * N) := map (fun w => (rg_ty g, sw (rg_ty g) w)) (rowi g i).
+Lemma vertex_words_ok n gs i : Forall (group_good n) gs -> (i < n)%nat ->
+  vertex_words gs i = Ok (flat_map (fun g => gwords g i) gs).
+Proof.
+  intros Hg Hi. unfold vertex_words.
+  rewrite (mapR_ok _ (fun g => gwords g i)).
+  - cbn [rbind]. rewrite <- flat_map_concat_map. reflexivity.
+  - intros g Hin. rewrite Forall_forall in Hg. destruct (rowi_good n g i (Hg g Hin) Hi) as [E (Hl & Hr)].
+    rewrite E. cbn [rbind]. unfold gwords. apply mapR_ok. intros w Hw.
+    rewrite Forall_forall in Hr. destruct (Hr w Hw) as [G _]. destruct (good_sw _ _ G) as [-> _]. reflexivity.
+Qed.
+
+Definition genc (e : endian) (g : rgroup) (i : nat) : list N := enc_words e (gwords g i).
+Lemma enc_words_app e a b : enc_words e (a ++ b) = enc_words e a ++ enc_words e b.
+Proof. unfold enc_words. apply flat_map_app. Qed.
+Lemma enc_words_flat e gs i : enc_words e (flat_map (fun g => gwords g i) gs) = flat_map (fun g => genc e g i) gs.
+Proof. induction gs as [|g gs IH]; [reflexivity|]. cbn [flat_map]. rewrite enc_words_app, IH. reflexivity. Qed.
+
+Lemma enc_ws_length e t ws : List.length (enc_words e (map (fun w => (t, sw t w)) ws)) = (List.length ws * sty_size t)%nat.
+Proof.
+  induction ws as [|w ws IH]; [reflexivity|]. cbn [map]. unfold enc_words in *. cbn [flat_map List.length].
+  rewrite app_length, enc_word_length, IH. lia.
+Qed.
+
+(* reading the members of one group out of a record *)
+Lemma read_members_bin e t ws : forall (P S : list N),
+  Forall (fun w => good t w /\ exists v, val t w = Ok v) ws -> ty_supported t = true ->
+  mapR (fun off => dor w <- of_opt ECrash (get_word e t off (P ++ enc_words e (map (fun w => (t, sw t w)) ws) ++ S)); conv t w)
+       (offs_from true (List.length P) t (List.length ws)) = Ok (map (vl t) ws).
+Proof.
+  induction ws as [|w ws IH]; intros P S Hg Ht; [reflexivity|].
+  inversion Hg as [|? ? [G V] Hg']; subst.
+  assert (Eb : enc_words e (map (fun w => (t, sw t w)) (w :: ws)) = enc_word e t (sw t w) ++ enc_words e (map (fun w => (t, sw t w)) ws)) by reflexivity.
+  rewrite Eb. rewrite <- app_assoc. cbn [List.length offs_from mapR map]. rewrite get_word_at; [|reflexivity|apply good_sw, G]. cbn [of_opt rbind].
+  rewrite conv_sw by assumption. cbn [rbind].
+  unfold advance.
+  specialize (IH (P ++ enc_word e t (sw t w)) S Hg' Ht).
+  rewrite app_length, enc_word_length in IH. rewrite <- app_assoc in IH. rewrite IH. reflexivity.
+Qed.
+
+Lemma vertex_ty_ok_supported t : ty_supported t = true -> vertex_ty_ok t = true.
+Proof. destruct t; try discriminate; reflexivity. Qed.
+
+Lemma read_row_bin e n i : forall gs (P S : list N), Forall (group_good n) gs -> (i < n)%nat ->
+  mapR (fun b => read_bin_row e b (P ++ flat_map (fun g => genc e g i) gs ++ S)) (layout true gs (List.length P))
+  = Ok (map (fun g => map (vl (rg_ty g)) (rowi g i)) gs).
+Proof.
+  induction gs as [|g gs IH]; intros P S Hg Hi; [reflexivity|].
+  inversion Hg as [|? ? G Hg']; subst. destruct (rowi_good n g i G Hi) as [_ (Hl & Hr)]. destruct G as (Ht & _ & _).
+  assert (Eg : genc e g i = enc_words e (map (fun w => (rg_ty g, sw (rg_ty g) w)) (rowi g i))) by reflexivity.
+  specialize (IH (P ++ genc e g i) S Hg' Hi).
+  assert (El : List.length (P ++ genc e g i) = (List.length P + List.length (rowi g i) * sty_size (rg_ty g))%nat).
+  { rewrite app_length, Eg, enc_ws_length. reflexivity. }
+  rewrite El in IH. rewrite <- app_assoc in IH. rewrite Eg in IH.
+  cbn [layout mapR flat_map map]. rewrite <- app_assoc. rewrite Eg. rewrite <- Hl.
+  unfold read_bin_row at 1. cbn [b_ty b_offs]. rewrite vertex_ty_ok_supported by assumption.
+  rewrite (read_members_bin e (rg_ty g) (rowi g i) P) by assumption. cbn [rbind].
+  rewrite IH. reflexivity.
+Qed.
+
+Lemma genc_total_length e n gs i : Forall (group_good n) gs -> (i < n)%nat ->
+  List.length (flat_map (fun g => genc e g i) gs) = size_of (tys_of gs).
+Proof.
+  intros Hg Hi. induction gs as [|g gs IH]; [reflexivity|]. inversion Hg as [|? ? G Hg']; subst.
+  cbn [flat_map]. rewrite app_length, IH by assumption. unfold tys_of. cbn [flat_map]. fold (tys_of gs).
+  destruct (rowi_good n g i G Hi) as [_ (Hl & _)]. unfold genc, gwords. rewrite enc_ws_length, Hl.
+  unfold g_tys. clear. induction (rg_names g) as [|x l IH]; [reflexivity|]. cbn [map app List.length size_of fold_right] in *. fold (size_of (map (fun _ => rg_ty g) l ++ tys_of gs)). lia.
+Qed.
+
+Lemma record_size_props gs : record_size (vertex_props gs) = size_of (tys_of gs).
+Proof.
+  induction gs as [|g gs IH]; [reflexivity|]. unfold vertex_props, tys_of in *. cbn [flat_map].
+  unfold group_props, g_tys. induction (rg_names g) as [|x l IHl]; [exact IH|].
+  cbn [map app]. unfold record_size, size_of in *. cbn [fold_right]. rewrite IHl. reflexivity.
+Qed.
+
+(* the values the readers deliver for vertex i *)
+Definition vrow (gs : list rgroup) (i : nat) : list (list N) := map (fun g => map (vl (rg_ty g)) (rowi g i)) gs.
+
+Theorem read_vertices_bin_written e n gs : forall k (rest : list N), Forall (group_good n) gs -> (k <= n)%nat ->
+  read_vertices_bin e (layout true gs 0) (size_of (tys_of gs)) k
+    (flat_map (fun i => flat_map (fun g => genc e g i) gs) (seq (n - k) k) ++ rest)
+  = Ok (map (vrow gs) (seq (n - k) k), rest).
+Proof.
+  induction k as [|k IH]; intros rest Hg Hk; [reflexivity|].
+  cbn [seq flat_map map read_vertices_bin]. rewrite <- app_assoc.
+  rewrite take_app_exact by (symmetry; apply (genc_total_length e n); [assumption|lia]). cbn [of_opt rbind].
+  pose proof (read_row_bin e n (n - S k) gs [] [] Hg ltac:(lia)) as R. cbn [app List.length] in R. rewrite app_nil_r in R.
+  rewrite R. cbn [rbind]. replace (S (n - S k)) with (n - k)%nat by lia.
+  rewrite IH by (try assumption; lia). reflexivity.
+Qed.
